@@ -19,11 +19,12 @@ import time
 from . import kernel
 
 VERIF = kernel.VERIF
+OUT = os.environ.get("VERIF_OUT", VERIF)      # evidence/replays of runs against scratch trees go elsewhere
 PROPS = ["C%02d" % i for i in range(1, 20)]
 
 
 def write_replay(pid, w):
-    d = os.path.join(VERIF, "replays")
+    d = os.path.join(OUT, "replays")
     os.makedirs(d, exist_ok=True)
     blob = json.dumps({"property": pid, **w}, sort_keys=True, indent=1)
     h = hashlib.sha1(blob.encode()).hexdigest()[:10]
@@ -115,8 +116,8 @@ def main(argv=None):
         "wall_s": round(wall, 3),
         "violations": int(acc.total_violations),
     }
-    os.makedirs(os.path.join(VERIF, "evidence"), exist_ok=True)
-    with open(os.path.join(VERIF, "evidence", pid + ".json"), "w") as f:
+    os.makedirs(os.path.join(OUT, "evidence"), exist_ok=True)
+    with open(os.path.join(OUT, "evidence", pid + ".json"), "w") as f:
         json.dump(ev, f, indent=1, sort_keys=True)
 
     print(f"{pid} tier={a.tier} seed={a.seed} states={cov['states']} "
